@@ -127,7 +127,7 @@ var trafficPool = []string{"u20d10", "d1", "u1", "u45s10h5", "u10d50", "u50d10",
 var nonInts = []string{"abc", "1.5", "12s", "1e3"}
 var nonFloats = []string{"fast", "1,5", "0.5s"}
 
-func rint(r *rand.Rand, lo, hi int) int { return lo + r.Intn(hi-lo+1) }
+func rint(r *rand.Rand, lo, hi int) int    { return lo + r.Intn(hi-lo+1) }
 func pick(r *rand.Rand, s []string) string { return s[r.Intn(len(s))] }
 
 type drmPkg struct{ name, scheme string }
